@@ -22,6 +22,7 @@ struct Gen {
   int storm_focus = -1;
   struct LastParams { uint64_t m; double divisor; uint32_t l2; };
   std::map<std::pair<int, int>, LastParams> last_simple;  // (task, op) -> parameters of the previous call (cache collisions)
+  std::map<std::pair<int, int>, LastParams> prev_simple;  // ... and of the call before that (A-B-A patterns)
 
   Gen(uint64_t seed, const GenCfg& c) : r(seed, 11), cfg(c) { M.init(P); }
 
@@ -682,7 +683,11 @@ struct Gen {
     // deliberate cache-slot collisions: stay on the previous call's dimension (and often divisor) on this thread
     const std::pair<int, int> lkey(cur_task, op);
     const bool collide = simple && cfg.small_pools && last_simple.count(lkey) && r.chance(65, 100);
-    if (collide) m = last_simple[lkey].m;
+    // return to the parameters of the call before the previous one (A-B-A), keeping the previous call's bound: state that
+    // is shared between dimensions goes stale exactly there
+    const bool aba = collide && prev_simple.count(lkey) && prev_simple[lkey].m != last_simple[lkey].m && r.chance(40, 100);
+    if (collide) m = aba ? prev_simple[lkey].m : last_simple[lkey].m;
+    const LastParams cref = aba ? prev_simple[lkey] : (collide ? last_simple[lkey] : LastParams{0, 1, 0});
     Call c;
     double divisor = 1;
     uint32_t l2 = 0;
@@ -721,9 +726,10 @@ struct Gen {
         break;
       }
       case OP_REIM_TO_ZNX64: {
-        divisor = collide && r.chance(60, 100) ? last_simple[lkey].divisor : pick_divisor(m);
+        divisor = collide && r.chance(aba ? 90 : 60, 100) ? cref.divisor : pick_divisor(m);
         static const uint32_t bnds[] = {49, 50, 51, 63};
         l2 = bnds[r.below(4)];
+        if (aba && r.chance(70, 100)) l2 = last_simple[lkey].l2;
         // |x/d| < 2^kb: inside the fast variant's window for bounds <= 50, up to the wide variant's documented window
         // (2^52) above. (Observed while building this: for odd integers x/d in [2^52,2^53) the avx2 wide kernel is off by
         // one because x + d/2 is a rounding tie there; that binade is outside the window and is not generated.)
@@ -748,10 +754,11 @@ struct Gen {
         c.s[1] = new_raw(T_I32, 2 * m, true, (int)r.range(1, 31));
         break;
       case OP_CPLX_TO_TNX32: {
-        divisor = collide && r.chance(60, 100) ? last_simple[lkey].divisor : pick_divisor(m);
+        divisor = collide && r.chance(aba ? 90 : 60, 100) ? cref.divisor : pick_divisor(m);
         static const uint32_t ovh[] = {0, 17, 18, 19, 19, 24, 30};
         l2 = ovh[r.below(cfg.small_pools ? 4 : 7)];
         if (cfg.small_pools && r.chance(1, 4)) l2 = ovh[4 + r.below(3)];
+        if (aba && r.chance(70, 100)) l2 = last_simple[lkey].l2;
         // x = d*(K + f/16)/2^32 with |K| < 2^kb, i.e. |x/d| < 2^(kb-32) <= 2^log2overhead (the documented domain); beyond
         // 2^46 K is used without fractional part (exact torus values, no ties)
         int kbmax = 32 + (int)l2 > 62 ? 62 : 32 + (int)l2;
@@ -768,6 +775,7 @@ struct Gen {
         break;
     }
     if (simple) {
+      if (last_simple.count(lkey)) prev_simple[lkey] = last_simple[lkey];
       last_simple[lkey] = LastParams{m, divisor, l2};
       c.op = op_info[op].twin;
       c.p[0] = m;
